@@ -445,3 +445,94 @@ Theorem register_get c name st d k :
   ctx_get (register c name st d) k =
   if str_eqb k (mkkey name (reg_arity st d)) then Some [d] else ctx_get c k.
 Proof. unfold register. apply ctx_get_set. Qed.
+
+(* ------------------------------------------------------------------ the fact store *)
+
+Lemma dbkey_eqb_eq a b : dbkey_eqb a b = true <-> a = b.
+Proof.
+  destruct a as [n1 a1], b as [n2 a2]. unfold dbkey_eqb. simpl.
+  rewrite andb_true_iff, str_eqb_eq, Nat.eqb_eq. split.
+  - intros [-> ->]. reflexivity.
+  - intros H. inversion H. auto.
+Qed.
+
+Lemma dbkey_eqb_refl a : dbkey_eqb a a = true.
+Proof. apply dbkey_eqb_eq. reflexivity. Qed.
+
+Lemma db_get_set m k v k2 :
+  db_get (db_set m k v) k2 = if dbkey_eqb k2 k then v else db_get m k2.
+Proof.
+  induction m as [|[k' v'] m IH]; simpl.
+  - reflexivity.
+  - destruct (dbkey_eqb k k') eqn:E; simpl.
+    + apply dbkey_eqb_eq in E. subst k'. destruct (dbkey_eqb k2 k); reflexivity.
+    + rewrite IH. destruct (dbkey_eqb k2 k') eqn:E2; [|reflexivity].
+      apply dbkey_eqb_eq in E2. subst k'.
+      destruct (dbkey_eqb k2 k) eqn:E3; [|reflexivity].
+      apply dbkey_eqb_eq in E3. subst k2. rewrite dbkey_eqb_refl in E. discriminate.
+Qed.
+
+(* assert_fact: the new fact goes to the end (append) or to the front of name/N, nothing else changes *)
+Theorem assert_fact_get m name vals app k :
+  db_get (assert_fact m name vals app) k =
+  if dbkey_eqb k (name, length vals)
+  then (if app then db_get m (name, length vals) ++ [vals] else vals :: db_get m (name, length vals))
+  else db_get m k.
+Proof. unfold assert_fact. apply db_get_set. Qed.
+
+Lemma match_fact_extends vals : forall args s s',
+  match_fact s args vals = Some s' -> forall x b, slookup s x = Some b -> slookup s' x = Some b.
+Proof.
+  induction vals as [|a vals IH]; intros args s s' H x b Hx; destruct args as [|v args]; simpl in H; try discriminate.
+  - inversion H. subst. exact Hx.
+  - unfold unify_atom in H. destruct (slookup s v) as [c|] eqn:El.
+    + destruct (str_eqb a c); [|discriminate]. eapply IH; eauto.
+    + eapply IH; [exact H|]. simpl. destruct (Nat.eqb_spec x v) as [->|]; [congruence | exact Hx].
+Qed.
+
+(* all-variable query of the facts: a stored fact of matching length answers, binding the
+   i-th variable to its i-th value *)
+Lemma match_fact_fresh vals : forall args s,
+  length args = length vals -> NoDup args -> (forall v, In v args -> slookup s v = None) ->
+  exists s', match_fact s args vals = Some s' /\
+             (forall i v a, nth_error args i = Some v -> nth_error vals i = Some a -> slookup s' v = Some a).
+Proof.
+  induction vals as [|a vals IH]; intros args s Hl Hnd Hfree; destruct args as [|v args]; try discriminate.
+  - exists s. split; [reflexivity|]. intros [|i] v a H; discriminate.
+  - simpl. unfold unify_atom. rewrite (Hfree v (or_introl eq_refl)).
+    inversion Hnd as [|? ? Hnotin Hnd']; subst.
+    destruct (IH args ((v, a) :: s)) as [s' [Hm Hs']].
+    + simpl in Hl. congruence.
+    + exact Hnd'.
+    + intros w Hw. simpl. destruct (Nat.eqb_spec w v) as [->|Hne]; [contradiction|].
+      apply Hfree. right. exact Hw.
+    + exists s'. split; [exact Hm|]. intros [|i] w b Hn Hv; simpl in Hn, Hv.
+      * inversion Hn; inversion Hv; subst.
+        eapply match_fact_extends; [exact Hm|]. simpl. rewrite Nat.eqb_refl. reflexivity.
+      * eapply Hs'; eauto.
+Qed.
+
+Lemma map_lookup_eq (s' : store) args : forall vals,
+  length args = length vals ->
+  (forall i v a, nth_error args i = Some v -> nth_error vals i = Some a -> slookup s' v = Some a) ->
+  map (slookup s') args = map Some vals.
+Proof.
+  induction args as [|v args IH]; intros vals Hl H; destruct vals as [|a vals]; try discriminate; [reflexivity|].
+  simpl. rewrite (H 0 v a eq_refl eq_refl). f_equal. apply IH.
+  - simpl in Hl. congruence.
+  - intros i w b Hn Hv. apply (H (S i) w b); assumption.
+Qed.
+
+(* the fact answers of a call with distinct unbound variables, read through these variables,
+   are exactly the stored facts of name/N in their stored order *)
+Theorem fact_answers_fresh fs args s :
+  Forall (fun f => length f = length args) fs -> NoDup args ->
+  (forall v, In v args -> slookup s v = None) ->
+  map (fun s' => map (slookup s') args) (fact_answers fs args s) = map (map Some) fs.
+Proof.
+  intros Hlen Hnd Hfree. induction Hlen as [|f fs Hf _ IH]; [reflexivity|].
+  unfold fact_answers in *. cbn [flat_map map].
+  destruct (match_fact_fresh f args s (eq_sym Hf) Hnd Hfree) as [s' [Hm Hs']].
+  rewrite Hm. cbn [app map]. rewrite IH. f_equal.
+  apply map_lookup_eq; [symmetry; exact Hf | exact Hs'].
+Qed.
